@@ -522,6 +522,12 @@ let sqlhist () : unit =
          | "Dn" | "Dm" ->
              next_plan := [ { f_kind = z_of_small 3; f_pfx = (if on = "Dn" then PNode else PMerged); f_name = None;
                               f_occ = z_of_small k; f_out = OErr; f_sticky = false } ]
+         | "Pm" ->
+             next_plan := [ { f_kind = z_of_small 2; f_pfx = PMerged; f_name = None;
+                              f_occ = z_of_small k; f_out = OErr; f_sticky = false } ]
+         | "Dc" ->
+             next_plan := [ { f_kind = z_of_small 3; f_pfx = PCur; f_name = None;
+                              f_occ = z_of_small k; f_out = OErr; f_sticky = false } ]
          | _ -> ());
         pr "F"
     | "conn" -> let i = rd_int () in setc i sconn0; pr "ok"
@@ -586,6 +592,21 @@ let sqlhist () : unit =
          | Some rows ->
              pr "ok";
              pr_list (fun (k, vs) -> pr_sval k; Stdlib.List.iter pr_sval vs) rows)
+    | "selo" ->
+        (* ORDER BY a non-key column, ties by key: SQLite sorts what the cursor delivers in key
+           order (NULL first, then numbers, text, blobs: its own comparison) *)
+        let i = rd_int () in cur := i; let col = rd_int () in let desc = rd_bool () in
+        pr "SO";
+        (match sql_select (getc i) false [] O with
+         | None -> pr "panic"
+         | Some rows ->
+             let cmpv a b = (match a, b with
+               | VNull, VNull -> 0 | VNull, _ -> -1 | _, VNull -> 1
+               | _ -> (match order_exact a b with Some Lt -> -1 | Some Gt -> 1 | _ -> 0)) in
+             let keyed = Stdlib.List.map (fun (k, vs) -> (Stdlib.List.nth vs col, (k, vs))) rows in
+             let sorted = Stdlib.List.stable_sort (fun (a, _) (b, _) -> if desc then cmpv b a else cmpv a b) keyed in
+             pr "ok";
+             pr_list (fun (_, (k, vs)) -> pr_sval k; Stdlib.List.iter pr_sval vs) sorted)
     | "begin" ->
         let i = rd_int () in cur := i; let _ = rd_vnames () in
         let (sc', o) = sql_begin (getc i) in setc i sc'; pr_outcome o; pr "M"; pr "["; pr "]"
